@@ -317,6 +317,11 @@ class P(Prop):
             ps.append(ps[0])
         rng.shuffle(peps)
         mode = "pipeline" if rng.random() < 0.3 else "direct"
+        if mode == "direct" and rng.random() < 0.15:
+            # the rest of the identifier universe: decoys and identifiers that already carry the placeholder marker
+            ren = {p: rng.choice(["REV__", "REV__", "OBSOLETE__", "OBSOLETE__REV__"]) + p for p in prots if rng.random() < 0.3}
+            peps = [([ren.get(p, p) for p in ps], s) for ps, s in peps]
+            prots = [ren.get(p, p) for p in prots]
         if mode == "pipeline":
             # decoys with peptides of their own, so that thresholds mean something
             for p in prots:
